@@ -252,6 +252,7 @@ class IterateUnit(Unit):
                 n = len(x)
                 sj["P"] = [[0.0] * n for _ in range(n)]
                 sj["A"] = [[[0.0] * n for _ in range(n)] for _ in range(len(y))]
+                sj["B"] = [[0.0] * n for _ in range(len(y))]      # constant rows: squares of 2^17-sized values are not binary64
                 for j in range(n):
                     big = g.rng.choice([-1.0, 1.0]) * g.rng.choice([1, 3, 5]) * 2.0 ** g.rng.randint(10, 14)
                     width = g.rng.choice([0.0, 0.5, 8.0])
